@@ -185,23 +185,23 @@ def _reset_classify(clause, draws, obs):
 
 
 def _cubes_modes(tier):
-    ks = [(1, 0), (2, 1), (3, 0), (3, 1), (4, 1)] if tier == "quick" else [(a, b) for a in range(NKINDS) for b in range(NKINDS)]
+    ks = [(1, 0), (2, 1), (3, 0), (3, 1), (4, 1)] if tier == "quick" else [(1, 0), (2, 1), (3, 0), (3, 1), (4, 1), (2, 0), (4, 0), (1, 1), (2, 2)]
     out = []
     for m in (1, 2) if tier == "quick" else (0, 1, 2):
         for a, b in ks:
-            out.append(dict(dict(_NOFLAGS, t2=2, cancel1=0) if tier == "quick" else {}, mode=m, kind0=a, kind1=b))
+            out.append(dict(dict(_NOFLAGS, t2=2, cancel1=0) if tier == "quick" else dict(_NOFLAGS), mode=m, kind0=a, kind1=b))
     return out
 
 
 def _cubes_step(tier):
-    ks = [(1, 0), (2, 0), (3, 0), (1, 1)] if tier == "quick" else [(a, b) for a in (1, 2, 3, 4) for b in (0, 1, 3)]
-    extra = {"t1": 1, "t2": 2} if tier == "quick" else {}
+    ks = [(1, 0), (2, 0), (3, 0), (1, 1)] if tier == "quick" else [(1, 0), (2, 0), (3, 0), (4, 0), (1, 1), (2, 1)]
+    extra = {"t1": 1, "t2": 2} if tier == "quick" else {"t2": 2}
     return [dict(_NOFLAGS, mode=mm, kind0=a, kind1=b, cancel1=0, act0=x, **extra) for mm in ((0,) if tier == "quick" else (0, 2)) for a, b in ks for x in range(3)]
 
 
 def _cubes_reset(tier):
-    ks = [(0, 0), (1, 0), (2, 1), (3, 1)] if tier == "quick" else [(a, b) for a in (0, 1, 2, 3) for b in (0, 1, 2, 3)]
-    extra = {"t2": 2} if tier == "quick" else {}
+    ks = [(0, 0), (1, 0), (2, 1), (3, 1)] if tier == "quick" else [(a, b) for a in (0, 1, 2, 3) for b in (0, 1, 2)]
+    extra = {"t2": 2}
     return [dict(_NOFLAGS, mode=mm, kind0=a, kind1=b, **extra) for mm in (0, 2) for a, b in ks]
 
 
@@ -266,7 +266,7 @@ def pipeline_stepping(sym, tier):
     """A two-stage Server pipeline (events waiting in queue buffers, outside the heap) driven by
     pause / step(k1) / step(k2) / resume ends exactly like the uninterrupted run."""
     r = Result()
-    m = 3 if tier == "quick" else 4
+    m = 3
     P = {"ts": [sym.int(f"arrive{i}", 0, 1) for i in range(m)], "via": [sym.bool(f"via_forwarder{i}") for i in range(m)]}
     ref = _pipeline(P, None)
     ks = [sym.int("k1", 1, 30)] + ([sym.int("k2", 1, 30)] if tier != "quick" else [])
